@@ -54,6 +54,39 @@ var vstmtCases = []vstmtCase{
 		}
 		return x, ""
 	}},
+	// continue and break in a for nested in a for range, and the other way round
+	{"{% x := 0 %}{% for _, y := range []int{1, 2} %}{% for i := 0; i < 3; i++ %}{% if i == a %}{% continue %}{% end %}{% if i == b %}{% break %}{% end %}{% x = x*5 + i + y %}{% end %}{% x++ %}{% end %}{% if x == r %}T{% end %}", func(a, b int, s string) (int, string) {
+		x := 0
+		for _, y := range []int{1, 2} {
+			for i := 0; i < 3; i++ {
+				if i == a {
+					continue
+				}
+				if i == b {
+					break
+				}
+				x = x*5 + i + y
+			}
+			x++
+		}
+		return x, ""
+	}},
+	{"{% x := 0 %}{% for i := 0; i < 2; i++ %}{% for _, y := range []int{0, 1, 2} %}{% if y == a %}{% continue %}{% end %}{% if y == b %}{% break %}{% end %}{% x = x*5 + i + y %}{% end %}{% x++ %}{% end %}{% if x == r %}T{% end %}", func(a, b int, s string) (int, string) {
+		x := 0
+		for i := 0; i < 2; i++ {
+			for _, y := range []int{0, 1, 2} {
+				if y == a {
+					continue
+				}
+				if y == b {
+					break
+				}
+				x = x*5 + i + y
+			}
+			x++
+		}
+		return x, ""
+	}},
 	// range over a string: indexes and runes
 	{"{% x := 0 %}{% for i, c := range s %}{% x = x*7 + i + int(c) %}{% end %}{% if x == r %}T{% end %}", func(a, b int, s string) (int, string) {
 		x := 0
@@ -262,6 +295,6 @@ func vc01_e2e_labelled() {
 }
 
 func vh_c01_e2e_labelled_q() { vc01_e2e_labelled() }
-func vh_c01_e2e_stmt1_q() { vc01_e2e_stmt(0, 5) }
-func vh_c01_e2e_stmt2_q() { vc01_e2e_stmt(5, 10) }
-func vh_c01_e2e_stmt3_q() { vc01_e2e_stmt(10, len(vstmtCases)) }
+func vh_c01_e2e_stmt1_q() { vc01_e2e_stmt(0, 6) }
+func vh_c01_e2e_stmt2_q() { vc01_e2e_stmt(6, 11) }
+func vh_c01_e2e_stmt3_q() { vc01_e2e_stmt(11, len(vstmtCases)) }
